@@ -55,15 +55,16 @@ func VerifC04iHolePunchHandOver() {
 	if err != nil {
 		panic(err)
 	}
-	key := holePunchKey{addr: udp.String(), peer: "peerA"}
 	inbound := &vC04iConn{}
 	// the listener's hand-over, as listener.Accept performs it under the lock
 	handed := false
 	handOverLocked := func() {
-		if hp, ok := t.holePunching[key]; ok && !hp.fulfilled {
-			hp.connCh <- inbound
-			hp.fulfilled = true
-			handed = true
+		for _, hp := range t.holePunching { // the one attempt that is registered (however the transport keys it)
+			if !hp.fulfilled {
+				hp.connCh <- inbound
+				hp.fulfilled = true
+				handed = true
+			}
 		}
 	}
 	ctx, cancel := context.WithCancel(context.Background())
@@ -108,8 +109,8 @@ func VerifC04iHolePunchHandOver() {
 		vAssert(got == nil && errors.Is(gerr, ErrHolePunching), "without a connection the attempt reports the failure")
 	}
 	t.holePunchingMx.Lock()
-	_, still := t.holePunching[key]
+	still := len(t.holePunching)
 	t.holePunchingMx.Unlock()
-	vAssert(!still, "the attempt is unregistered when it ends")
+	vAssert(still == 0, "the attempt is unregistered when it ends")
 	vAssert(tr.decs == 1, "the transport reference taken for the attempt is given back")
 }
